@@ -94,7 +94,7 @@ def _cases(tier, r):
         out += [("toy1", dict(u=50.0), "low", "cross", 1.0, True), ("toy1", dict(u=0.02), "high", "inside", 1.0, True)]
     # small units (T ~ 1e-3 .. 1e-5) with a starting guess that is only approximately at the minimum (3 % off, as the documentation allows):
     # the starting point and every re-minimisation must still converge to the minimum (tolerances relative to the size of the potential)
-    for u_, par_ in (((1e-3, True), (1e-3, False)) if tier == "quick" else ((1e-3, True), (1e-3, False), (1e-5, True), (1e-5, False), (1e-2, True), (40.0, True))):
+    for u_, par_ in (((1e-3, True), (1e-3, False), (1e-5, True)) if tier == "quick" else ((1e-3, True), (1e-3, False), (1e-5, True), (1e-5, False), (1e-2, True), (40.0, True))):
         out.append(("toy1", dict(u=u_, guess_off=0.03), "low", "inside", 1.0, par_))
     if tier == "thorough":
         out.append(("toy2", dict(u=1e-4, guess_off=-0.04), "low", "inside", 1.0, True))
